@@ -456,3 +456,42 @@ Lemma mutual_facts :
   case_leaf mutual_case "b.n" = Some [s "42"] /\ case_leaf mutual_case "b.c.ok" = Some [s "true"] /\
   case_leaf mutual_case "b.a.title" = None.
 Proof. vm_compute. repeat split; reflexivity. Qed.
+
+(* ---- several RPCs / services answering with the same message -------------------------------------- *)
+(* What the mock prints for an RPC depends on the file and the RESPONSE TYPE only, not on the service or
+   the RPC: two RPCs (of one service or of two services of the file) that answer with the same message
+   get the same assignments, obligations, value sets and defect tags. *)
+Theorem same_response_same_walk sc ex ft fl md1 md2 :
+  md_out md1 = md_out md2 -> rpc_walk sc ex ft fl md1 = rpc_walk sc ex ft fl md2.
+Proof. unfold rpc_walk, output_msg. intros ->. reflexivity. Qed.
+
+(* three services in one file; User is the response of four RPCs in three services, Empty of two *)
+Definition shared_response_case : mcase :=
+  ([file_of "a.proto"
+      [msg "Req" [fld "id" KString Singular None []] [];
+       msg "User" [fld "name" KString Singular None []; fld "age" KInt64 Singular None []; fld "next" (M "User") Singular None []] [];
+       msg "Status" [fld "ok" KBool Singular None []; fld "user" (M "User") Singular None []; fld "by" (M "User") (MapOf KString) None []] [];
+       msg "Empty" [] []] []
+      [svc "UserService" ["X-Trace-ID"] [rpc "GetUser" "Req" "User" 2 "/g" []; rpc "FindUser" "Req" "User" 2 "/f" ["X-Trace-ID"]; rpc "PingUsers" "Req" "Empty" 2 "/p" []];
+       svc "AdminService" ["X-Trace-ID"] [rpc "LookupUser" "Req" "User" 2 "/l" []; rpc "Stat" "Req" "Status" 2 "/s" []; rpc "PingAdmin" "Req" "Empty" 2 "/p" []];
+       svc "AuditService" [] [rpc "LastUser" "Req" "User" 2 "/u" []; rpc "Audit" "Req" "Status" 2 "/a" []]]],
+   exs [("User", "name", ["Ann"; "Bob"])], []).
+Definition case_rpc_leaf (c : mcase) (rpc path : string) : option (list str) :=
+  match case_walks c with
+  | Some ws => match find (fun x => str_eqb (fst x) (s rpc)) ws with
+               | Some (_, w) => option_map (fun l => sort_strs (dedup (lf_values l))) (find (fun l => str_eqb (lf_path l) (s path)) (w_leaves w))
+               | None => None
+               end
+  | None => None
+  end.
+Lemma shared_response_facts :
+  let '(sc, _, _) := shared_response_case in accepted sc = true /\
+  case_defects shared_response_case = Some [] /\ case_builds shared_response_case = Some true /\
+  option_map (@List.length _) (case_walks shared_response_case) = Some 8 /\
+  case_rpc_leaf shared_response_case "UserService.GetUser" "name" = Some [s "Ann"; s "Bob"] /\
+  case_rpc_leaf shared_response_case "UserService.FindUser" "name" = Some [s "Ann"; s "Bob"] /\
+  case_rpc_leaf shared_response_case "AdminService.LookupUser" "name" = Some [s "Ann"; s "Bob"] /\
+  case_rpc_leaf shared_response_case "AuditService.LastUser" "age" = Some [s "42"] /\
+  case_rpc_leaf shared_response_case "AdminService.Stat" "user.name" = Some [s "Ann"; s "Bob"] /\
+  case_rpc_leaf shared_response_case "AuditService.Audit" "by[sample_key].name" = Some [s "Ann"; s "Bob"].
+Proof. vm_compute. repeat split; reflexivity. Qed.
